@@ -61,6 +61,20 @@ PROPS = {
         "exhaustive": False,
         "label": "partial: relies on os.Root confinement (assumed); the code's obligation (all destination access goes through the root) is a regenerated theorem",
     },
+    "C06": {
+        "components": ["serve"],
+        "trusted_base": [KERNEL, EXTRACT, HARNESSTB, GEN, FSNOTE,
+                         "ASSUMED and exercised: os.Root / the module's fs.FS never resolves a name through a symbolic link out of the module (Go standard library); symbolic links are leaves of the model's tree",
+                         "modelled, not verified: filepath.Clean (Model/Flist.v path_clean), io/fs.ValidPath, fs.WalkDir's handling of an invalid or absent root (reported to the walk function: I/O error flag, nothing listed)"],
+        "assumptions": [
+            "requests whose path touches a symbolic link are outside the model's domain and decided by the canary oracle only",
+            "fs.FS-backed modules are given an fs.FS that is itself confined (os.Root.FS()); os.DirFS follows symbolic links out of its directory by design, which is the embedding application's choice, not the daemon's",
+            "the hand-written receiving client reads the daemon's stream until it goes quiet for 120 ms, decodes the file list with the reference decoder, optionally requests every regular file, and scans the raw byte stream for the canaries",
+        ],
+        "rule": "three modules whose names are prefixes of each other (mo, mod, mod2), directory- and fs.FS-backed, each containing files, nested directories, inside-pointing and outside-pointing (relative and absolute) symlinks to files and directories next to an outside area holding canary names and contents; request paths from the traversal grammar: module/.., module/../x, module//../, absolute paths, paths through inside- and outside-pointing symlinks with and without trailing slash, empty and '.' components, another module's name in front, no module prefix, two paths per request; options -r, -rl, -rc, -rlc, -rlptgoD; with and without fetching every listed regular file. compared: sorted name list vs model; oracle: no canary name or content anywhere in the daemon's byte stream. non-trivial = non-empty listing",
+        "exhaustive": False,
+        "label": "partial: relies on os.Root / fs.FS confinement for symbolic links (assumed, exercised); path handling and listing are theorems",
+    },
     "C07": {
         "components": ["daemonreq"],
         "trusted_base": [KERNEL, EXTRACT, HARNESSTB, GEN, FSNOTE,
